@@ -9,6 +9,7 @@ RULE = ('histories of 5..30 datagrams over 5 exporters (two ports of one IPv4 ad
         'announced), NetFlow v5 datagrams in between; through the real NetFlowPipe with a recording transport; '
         'mutants: one datagram mutated at byte level, datagrams dropped/swapped/duplicated/replayed from another '
         'exporter. compared: per datagram the error class and every message column except sampling_rate. '
+        'a third of the generated histories also run through the pipe AS cmd/goflow2 ASSEMBLES IT (Prometheus template system, Prometheus and panic wrappers around producer and decoder). '
         'non-trivial = history in which at least two exporters sent and a data record was decoded; distinct by input')
 TRUSTED = ['Coq 8.16.1 kernel (coqc), vm_compute in Examples only',
            'extraction (ExtrOcamlBasic only) + ocaml/main.ml glue',
